@@ -233,6 +233,10 @@ ObsFlags(w, ev) ==
   \cup {F("C02", "World::is_alive mismatch", o.hs[i]) : i \in wBad}
   \cup (IF joinBad THEN {F(AliveProp(w, ev), "entities join mismatch (join, lending join, parallel join)", <<o.join, IF Has(o, "joinl") THEN o.joinl ELSE <<>>, IF Has(o, "joinp") THEN o.joinp ELSE <<>>>>)} ELSE {})
   \cup {F(CompProp(w, ev, o.hs[p[2]]), "component lookup mismatch", <<p[1], o.hs[p[2]], o.st[p[1]].get[p[2]]>>) : p \in stBad}
+  \* a lookup that yields a value the library has already destroyed or handed back breaks "exactly once" too
+  \cup {F(IF w.fault THEN "C19" ELSE "C08", "a lookup returns a value that was already destroyed / handed back", <<p[1], o.hs[p[2]], o.st[p[1]].get[p[2]]>>)
+          : p \in {q \in stBad : o.st[q[1]].get[q[2]] # <<>> /\ o.st[q[1]].get[q[2]][1] # 0
+                                  /\ o.st[q[1]].get[q[2]][1] \in DOMAIN w.led /\ w.led[o.st[q[1]].get[q[2]][1]] # "held"}}
   \cup {F(CompProp(w, ev, <<-1, -1>>), "mask mismatch", s) : s \in maskBad}
   \cup {F(AliveProp(w, ev), "is_alive through a storage's fetched entities differs from Entities::is_alive", s) : s \in feBad}
   \cup {F("C12", "event stream mismatch (storage, expected, received)", <<s, w.evq[s], o.st[s].evs>>) : s \in evBad}
